@@ -14,7 +14,8 @@ RULE = ("comparable types (all comparable leaves incl. key_hash/key of four curv
         "different parity, mixed-length signatures and default-vs-lower entrypoint); antisymmetry and transitivity "
         "through the implementation; the same literals compared as plain strings before / after in the same process keep their own "
         "(string) order; a set/map literal sorted by the reference order is accepted and keeps that order, "
-        "UPDATE-insertion in any order yields it, unsorted or duplicate literals are rejected. Non-trivial: the values "
+        "UPDATE-insertion in any order yields it, unsorted or duplicate literals are rejected; sets / maps / big maps built from Python objects "
+        "given in arbitrary order come out in that order too. Non-trivial: the values "
         "differ and, for composite types, the first differing component is not the last one. Distinct = distinct case.")
 
 
@@ -175,6 +176,7 @@ def check_collection(case):
                         case, "sorted-big_map-rejected")
     if [rv.from_micheline(t, x["args"][0]) for x in back] != srt:
         raise Violation("big_map literal changed key order/content: %s -> %s" % (mlit, back), case, "big_map-literal-order")
+    _python_route(case, t, vals, srt)
     if len(srt) >= 2:
         i0 = case.get("swap", 0) % (len(srt) - 1)
         for what, keys in (("unsorted", lit[:i0] + [lit[i0 + 1], lit[i0]] + lit[i0 + 2:]), ("duplicate", lit[:i0 + 1] + lit[i0:])):
@@ -199,6 +201,81 @@ def check_collection(case):
         if err is None:
             raise Violation("map literal with unsorted keys accepted: %s" % mbad, case, "unsorted-map-accepted")
     return srt
+
+
+def _alt_spelling(t, v, o):
+    """another Python object pytezos accepts for the same value (None if there is none for this type)"""
+    p = t["prim"]
+    if p == "timestamp" and isinstance(o, int) and 0 <= o < 253402300800:
+        import datetime
+        return datetime.datetime.fromtimestamp(o, datetime.timezone.utc).strftime("%Y-%m-%dT%H:%M:%SZ")
+    if p == "timestamp" and isinstance(o, str):
+        return v if isinstance(v, int) else None
+    if p == "bytes" and isinstance(o, bytes):
+        return o.hex() if o else None
+    if p == "address" and isinstance(o, str) and "%" not in o:
+        return o + "%default"
+    if p == "pair" and isinstance(o, tuple) and len(o) == 2 and isinstance(v, tuple):
+        a = _alt_spelling(rv.targs(t)[0], v[0], o[0])
+        if a is not None:
+            return (a, o[1])
+    return None
+
+
+def _python_route(case, t, vals, srt):
+    """Sets / maps / big maps built from Python objects (the way storages and parameters are encoded) are ordered by the same relation.
+    Only the order is judged here; element types whose Python form is not faithful (C12's subject) are skipped."""
+    from pytezos.michelson.types.base import MichelsonType
+    ecls = MichelsonType.match(t)
+    py = []
+    distinct = []
+    for v in vals:   # the generated order, without repetitions (a Python list naming one element twice is refused, which is fine)
+        if all(rv.compare(t, v, o) != 0 for o in distinct):
+            distinct.append(v)
+    for v in distinct:
+        m = rv.to_micheline(t, v, "optimized")
+        try:
+            o = ecls.from_micheline_value(m).to_python_object(comparable=True)
+            hash(o)
+            if ecls.from_python_object(o).to_micheline_value(mode="optimized") != ecls.from_micheline_value(m).to_micheline_value(mode="optimized"):
+                return
+        except Exception:
+            return
+        py.append(o)
+    for kind in ("set", "map", "big_map"):
+        ct = rv.T(kind, t) if kind == "set" else rv.T(kind, t, rv.T("nat"))
+        ccls = MichelsonType.match(ct)
+        obj = list(py) if kind == "set" else {o: i for i, o in enumerate(py)}
+        try:
+            built = ccls.from_python_object(obj)
+            out = built.to_micheline_value(mode="optimized", lazy_diff=True) if kind == "big_map" else built.to_micheline_value(mode="optimized")
+        except Exception as e:
+            raise Violation("%s of %s cannot be built from the Python values %r (given in arbitrary order): %r" % (kind, _ts(t), py, e), case,
+                            "python-route-raise:" + kind)
+        keys = [rv.from_micheline(t, x if kind == "set" else x["args"][0]) for x in out]
+        if keys != srt:
+            raise Violation("%s of %s built from Python values %r is %s; ordered and deduplicated by the Tezos order it is %s" % (
+                kind, _ts(t), py, [rv.to_micheline(t, k) for k in keys], [rv.to_micheline(t, k) for k in srt]), case,
+                "python-route-order:" + kind)
+        try:
+            ccls.from_micheline_value(out)
+        except Exception as e:
+            raise Violation("%s of %s built from Python values renders as %s, which its own parser rejects: %r" % (kind, _ts(t), out, e), case,
+                            "python-route-unparsable:" + kind)
+        # the same element named twice in two Python spellings (a timestamp as number and as text, bytes as bytes and as hex, an
+        # address with and without %default): refused, or taken once -- never stored twice
+        alt = _alt_spelling(t, distinct[0], py[0]) if py else None
+        if alt is not None:
+            obj2 = [alt] + list(py) if kind == "set" else dict([(alt, 99)] + [(o, i) for i, o in enumerate(py)])
+            try:
+                built2 = ccls.from_python_object(obj2)
+                out2 = built2.to_micheline_value(mode="optimized", lazy_diff=True) if kind == "big_map" else built2.to_micheline_value(mode="optimized")
+            except Exception:
+                continue
+            keys2 = [rv.from_micheline(t, x if kind == "set" else x["args"][0]) for x in out2]
+            if any(rv.compare(t, a, b) != -1 for a, b in zip(keys2, keys2[1:])):
+                raise Violation("%s of %s built from Python values %r (one element spelled twice) holds %s: not strictly increasing / duplicated" % (
+                    kind, _ts(t), obj2, [rv.to_micheline(t, k) for k in keys2]), case, "python-route-duplicate:" + kind)
 
 
 # values travel in cases as readable Micheline (JSON-serialisable) and are decoded with the reference parser
